@@ -326,14 +326,18 @@ impl RSim {
                 hash = Some(RequestBlock { index: j, nodes });
             }
         }
+        // a request with an upgrade always brings the replica to the writer's full length (partial
+        // upgrades are completed by additional nodes), so any byte of the writer's log is in range
+        // for its seek; without an upgrade the seek must stay inside what the replica's tree covers
+        let seek_range = if upgrade.is_some() { self.wbytes_upto(self.wlen()) } else { self.wbytes_upto(covered) };
         let seek = match &req.seek {
             Seek::None => None,
             Seek::Sel(x) => {
-                let total = self.wbytes_upto(covered);
+                let total = seek_range;
                 Some(RequestSeek { bytes: sel(*x, total + 1) })
             }
             Seek::At(b) => {
-                let total = self.wbytes_upto(covered);
+                let total = seek_range;
                 if *b > total {
                     return Ok(Err("seek beyond covered bytes"));
                 }
